@@ -28,7 +28,7 @@ from fractions import Fraction
 import numpy as np
 from common import *
 
-IMPORTS = ("From CV Require Import Base.Cmp Base.QcLin Model.C06_RTO Model.C06_FD.\n"
+IMPORTS = ("From CV Require Import Base.Cmp Base.QcLin Model.C06_RTO Model.C06_FD Model.C06_GMRFop.\n"
            "From Coq Require Import QArith Qcanon.")
 RULE = ("configurations = interface (experimental, legacy) x target (Posterior, MultipleLikelihoodPosterior with 2-3 likelihoods, "
         "legacy 5-tuple) x model (matrix, function pair) x noise and prior Gaussian in all 4x4 input forms (cov/prec/sqrtcov/sqrtprec "
@@ -758,6 +758,8 @@ def observe(cuqi, spec, target=None, sampler=None):
             obs["M_adj"] = [np.array(Mop(np.array(basis(p, i)), 2), dtype=float).tolist() for i in range(p)]
             obs["L2"] = dense(sampler._L2).tolist()
         c = pert_scale(obs["b_tild"])
+        # (from a state far larger than the draw the solver's accuracy is relative to that state: perturb at its scale)
+        c = max(c, pert_scale(spec["xcurs"][0]) if spec.get("xk_class") == "huge" else 1.0)
         obs["c"] = c
         estar = [c * v for v in spec["estar"]] if spec.get("estar") else None
         estar2 = [c * v for v in spec["estar2"]] if spec.get("estar2") else None
@@ -868,7 +870,8 @@ def oracle_check(spec, obs):
     cov = np.array([[float(v) for v in row] for row in cov_f])
     # natural scale of the unknown: max(|posterior mean|, largest posterior standard deviation) -- both exact
     sc = max(np.max(np.abs(mean)), math.sqrt(max(float(cov_f[i][i]) for i in range(len(cov_f)))))
-    if not np.all(np.isfinite(x0)) or np.max(np.abs(x0 - mean)) > 1e-6 * sc:
+    huge = 1e-8 * max(abs(v) for v in spec["xcurs"][0]) if spec.get("xk_class") == "huge" else 0.0      # solver accuracy from a huge state
+    if not np.all(np.isfinite(x0)) or np.max(np.abs(x0 - mean)) > 1e-6 * sc + huge:
         return "mean", "offset x(e=0) = %s but the posterior mean is %s (max diff %.3g, scale %.3g)" % (x0.tolist(), mean.tolist(), np.max(np.abs(x0 - mean)), sc)
     GG = G @ G.T
     if not np.all(np.isfinite(GG)) or np.max(np.abs(GG - cov)) > 1e-6 * np.max(np.abs(cov)):
@@ -1019,7 +1022,7 @@ TINY_STD_EXP = {"cov": -17, "prec": 17, "sqrtcov": -34, "sqrtprec": 34}     # st
 
 def lattice_rto(ctx):
     """deterministic enumeration of cells (independent of the seed); the seed only chooses values inside"""
-    N = ctx.n(64, 600)
+    N = ctx.n(48, 480)
     specs = []
     shapes = ["over", "under", "square"]
     for i in range(N):
@@ -1070,10 +1073,10 @@ BIG = 76
 
 def lattice_big(ctx):
     """(role, form | bc, shape | order, dimension, Coq-side read-off?)"""
-    cells = [("prior", "cov", "vector", 76, False), ("noise", "prec", "full", 76, False), ("gmrf", "zero", 1, 76, False),
-             ("prior", "sqrtcov", "full", 75, False)]                     # 75 = MIN_DIM_SPARSE: the last size on the dense side
+    cells = [("prior", "cov", "vector", 76, False), ("noise", "prec", "full", 76, False), ("gmrf", "zero", 1, 76, False)]
     if ctx.thorough:
-        cells += [("prior", f, s, 76, False) for f in FORMS for s in ("scalar", "full")] + \
+        # 75 = MIN_DIM_SPARSE: the last size on the dense side
+        cells += [("prior", "sqrtcov", "full", 75, False)] + [("prior", f, s, 76, False) for f in FORMS for s in ("scalar", "full")] + \
                  [("noise", f, s, 76, False) for f in FORMS for s in ("vector", "full")] + \
                  [("prior", "sqrtprec", "diagmat", 76, False), ("noise", "cov", "diagmat", 76, False),
                   ("gmrf", "neumann", 1, 76, False), ("gmrf", "zero", 0, 76, False), ("gmrf", "periodic", 1, 76, False),
@@ -1147,7 +1150,7 @@ def lattice_ugla(ctx):
         bc = bcs[(i // 2) % 3]
         pat = fit_ugla_pattern(UGLA_PATTERNS[(i * 5 + i // len(UGLA_PATTERNS)) % len(UGLA_PATTERNS)], bc)
         out.append((i, ["exp", "legacy"][i % 2], ["matrix", "function"][(i // 2) % 2], bc, UGLA_LOCS[(i // 3) % 4],
-                    scales[(i // 4) % 4], [1.0, 0.25, 0.01][(i // 5) % 3], ["zero", "random"][(i // 6 + i) % 2],
+                    scales[(i // 4) % 4], [1.0, 0.25, 0.01][(i // 5) % 3], ["zero", "random", "huge"][(i // 6 + i) % 3],
                     NOISE_CELLS[(i * 3) % 16], pat))
     # 2-d LMRF priors (Image2D domain, function-pair model)
     for k in range(ctx.n(4, 24)):
@@ -1186,6 +1189,11 @@ def gen_ugla_spec(rng, cell):
     if lock == "vector" and len(set(loc)) == 1:
         loc[0] += 1.0
     xk = [0.0] * n if xkk == "zero" else rand_dyadic_vec(rng, n, 4, -3, 3)
+    if xkk == "huge":
+        # a current state several million times larger than the draw (kept below 2^38 after the unit scaling, see CGLS's
+        # absolute clause): the local Gaussian at such a state has negligible prior weights
+        ka = PATTERN_BY_NAME[patname][1]
+        xk = [v * 2.0 ** min(23, 36 - max(ka, 0)) for v in rand_dyadic_vec(rng, n, 1, 1, 3)]
     spec = {"kind": "ugla", "iface": iface, "target": "posterior", "mkind": mkind, "n": n,
             "liks": [{"A": A, "b": [float(rng.randint(-5, 5)) for _ in range(m)], "noise": gen_gspec(rng, m, f, s)}],
             "prior": {"kind": "lmrf", "bc": bc, "loc": loc, "scale": scale, "two_d": two_d}, "beta": beta, "xcurs": [xk], "idx": i}
@@ -1198,7 +1206,8 @@ def gen_ugla_spec(rng, cell):
         g["decl"] = DECLS_2D[i % 10]
     elif g["shape"] == "vector":
         g["decl"] = DECLS_1D[i % 6]
-    spec["cell"] = cell_name(spec) + "%s/noise=%s-%s/units=%s" % ("/2d" if two_d else "", f, s, patname)
+    spec["xk_class"] = xkk
+    spec["cell"] = cell_name(spec) + "%s/xk=%s/noise=%s-%s/units=%s" % ("/2d" if two_d else "", xkk, f, s, patname)
     return apply_scale(spec, PATTERN_BY_NAME[patname])
 
 
@@ -1263,6 +1272,13 @@ def side_conditions(spec, obs, cases, cell):
         cases.append(Case(expr=cbool(ok), meta={"spec": spec, "stage": "operator"}, cell=cell, kind="DECISION",
                           impl_fail=None if ok else "the prior's difference / precision operator is not the documented finite-difference stencil",
                           signature="" if ok else signature_of(spec, "operator")))
+    pg = spec.get("prior", {})
+    if pg.get("kind") == "gmrf" and "Pop" in obs:
+        two_d = bool(pg.get("two_d"))
+        N = int(round(spec["n"] ** 0.5)) if two_d else spec["n"]
+        cases.append(Case(expr="check_gmrf_P %s %s %s %s %s" % (cnat(pg["order"]), cbool(two_d), {"zero": "BcZero", "neumann": "BcNeumann", "periodic": "BcPeriodic"}[pg["bc"]],
+                                                            cnat(N), qm(obs["Pop"])),
+                          meta={"spec": spec, "stage": "operator-model"}, cell=cell))
     bad = obs.get("inputs_modified") or []
     cases.append(Case(expr=cbool(not bad), meta={"spec": spec, "stage": "inputs"}, cell=cell, kind="DECISION",
                       impl_fail=None if not bad else "; ".join(bad[:3]), signature="" if not bad else signature_of(spec, "input-modified")))
@@ -1287,9 +1303,11 @@ def rto_cases(spec, obs, fail, only_precompute=False):
     items = ["(%s, %s, %s, %s)" % (COQF[l["noise"]["form"]], cnat(len(l["b"])), c_gval(l["noise"]), qm(S))
              for l, S in zip(spec["liks"], obs["S_liks"])]
     pr = spec["prior"]
-    forms = "check_forms tol9 %s" % clist(items)
+    # (a matrix handed over in float32 is processed in float32 inside Gaussian: its square root is accurate to ~1e-7 only)
+    ftol = lambda gs: "tol6" if any(g.get("decl") == "f32" for g in gs) else "tol9"
+    forms = "check_forms %s %s" % (ftol([l["noise"] for l in spec["liks"]]), clist(items))
     if pr["kind"] == "gaussian":
-        forms += " && check_forms tol9 [(%s, %s, %s, %s)]" % (COQF[pr["g"]["form"]], cnat(n), c_gval(pr["g"]), qm(obs["S_prior"]))
+        forms += " && check_forms %s [(%s, %s, %s, %s)]" % (ftol([pr["g"]]), COQF[pr["g"]["form"]], cnat(n), c_gval(pr["g"]), qm(obs["S_prior"]))
     elif pr["kind"] == "gmrf":
         reg = SQRT_EPS if pr["bc"] != "zero" else 0.0
         forms += " && gmrf_sqrtprec_ok tol9 %s %s %s %s %s" % (cnat(n), qs(pr["prec"]), qs(reg), qm(obs["Pop"]), qm(obs["S_prior"]))
@@ -1365,7 +1383,8 @@ def ugla_cases(spec, obs, fail, fixed):
     def add(stage, expr, impl=False):
         cases.append(Case(expr=expr, meta={"spec": spec, "stage": stage, "variant": variant}, cell=cell, kind="EXACT",
                           impl_fail=detail if impl else None, signature=sig if impl else ""))
-    add("forms", "check_forms tol9 [(%s, %s, %s, %s)]" % (COQF[l["noise"]["form"]], cnat(len(l["b"])), c_gval(l["noise"]), qm(obs["S_liks"][0])))
+    add("forms", "check_forms %s [(%s, %s, %s, %s)]" % ("tol6" if l["noise"].get("decl") == "f32" else "tol9", COQF[l["noise"]["form"]], cnat(len(l["b"])),
+                                                          c_gval(l["noise"]), qm(obs["S_liks"][0])))
     side_conditions(spec, obs, cases, cell)
     two_d = bool(pr.get("two_d"))
     add("operator-model", "check_lmrf_D %s %s %s %s" % (cbool(two_d), {"zero": "BcZero", "neumann": "BcNeumann", "periodic": "BcPeriodic"}[pr["bc"]],
@@ -1377,7 +1396,11 @@ def ugla_cases(spec, obs, fail, fixed):
     x0 = obs["draws"][0]["x"]
     xs = [obs["draws"][1 + i]["x"] for i in range(p)]
     law = "check_ugla_law_spec tol6 %s %s %s %s %s %s %s %s" % (raw, COQF[l["noise"]["form"]], c_gval(l["noise"]), qs(obs["c"]), qv(xk), qv(swd), qv(x0), qm(xs))
-    if fail and spec.get("Dloc_nonzero") and not fixed:
+    if spec.get("xk_class") == "huge":
+        # the read-off from a state millions of times larger than the draw is accurate only relative to that state: the model
+        # side certifies the transitions (normal equations relative to the initial residual); the law is the oracle's
+        add("law", "true", impl=bool(fail))
+    elif fail and spec.get("Dloc_nonzero") and not fixed:
         # inside the known defect class the documented law is expected to fail: the faithful model (UglaCode) is tied by
         # the precompute / draws stages; the law stage carries the oracle's verdict
         add("law", "negb (%s)" % law, impl=True)
@@ -1920,6 +1943,7 @@ def run(ctx):
         cases += rto_cases(spec, obs, fail)
         ndraws += len(obs["draws"])
         nfired += sum(1 for d in obs["draws"] if d["fired"])
+    ctx.note("main lattice driven in %.0fs" % (time.time() - ctx.t0))
     for cell in lattice_big(ctx):
         spec = gen_big_spec(cuqi, rng, cell)
         obs = try_observe(cuqi, spec)
@@ -1930,6 +1954,7 @@ def run(ctx):
         cases += rto_cases(spec, obs, oracle_check(spec, obs))
         ndraws += len(obs["draws"])
         nfired += sum(1 for d in obs["draws"] if d["fired"])
+    ctx.note("large-dimension cells driven, %.0fs" % (time.time() - ctx.t0))
     cases += regularized_cases(cuqi, rng, ctx)
     cases += refusal_cases(cuqi, rng)
     # ---- UGLA -----------------------------------------------------------------------------------
@@ -1948,6 +1973,7 @@ def run(ctx):
         cases += ugla_cases(spec, obs, fail, st[spec["iface"]][0])
         ndraws += len(obs["draws"])
         nfired += sum(1 for d in obs["draws"] if d["fired"])
+    ctx.note("UGLA lattice driven, %.0fs" % (time.time() - ctx.t0))
     # ---- histories on shared objects ---------------------------------------------------------------
     st2 = probe_flag2(cuqi)
     for iface in ("exp", "legacy"):
@@ -1959,7 +1985,11 @@ def run(ctx):
         cases += run_history(cuqi, h, st, st2)
         nh += 1
     ctx.note("%d parameter re-assignment histories on shared objects" % nh)
+    ctx.note("driver time so far %.0fs" % (time.time() - ctx.t0))
     ctx.note("CGLS stopping test fired in %d of %d scripted transitions (tol %g, maxit %d)" % (nfired, ndraws, TOL, MAXIT))
+    # spread the expensive cases (large dimensions, long histories) evenly over the shards, which are consecutive slices
+    nsh = max(1, -(-len(cases) // SHARD))
+    cases = [c for r in range(nsh) for c in cases[r::nsh]]
     return Result(cases=cases, rule=RULE,
                   extra={"scripted_transitions": ndraws, "cgls_stop_fired": nfired,
                          "ugla_state": {k: ("repaired" if v[0] else "defect-present") for k, v in st.items()}},
